@@ -2179,7 +2179,7 @@ def _k5_targets():
 
 # =======================================================================================
 # K6  presentation text plumbing: PPT text blocks (symbolic text type) and the PPTX slide walk
-#     (symbolic shape positions, symbolic paragraph-child name)
+#     (symbolic shape positions y/x incl. equal ones, shapes without xfrm, symbolic paragraph-child name)
 # =======================================================================================
 
 PML = "{http://schemas.openxmlformats.org/presentationml/2006/main}"
@@ -2191,6 +2191,10 @@ K6_RULES = {
     ],
     "pptx": [
         ("pptx-alternatecontent-fallback-shape-in-text", ("excluded-text-leaks",), ("ac-fallback",), ()),
+        # a p:graphicFrame (table) and a p:sp that FOLLOWS it in the slide part share a position (equal a:off or
+        # both without xfrm) and the text of the p:sp is emitted first
+        ("pptx-table-frame-tied-with-later-shape-read-after-it", ("body-text-reordered",), (),
+         ("tied-frame-before-sp", "tied-sp-after-frame")),
     ],
 }
 
@@ -2248,7 +2252,11 @@ class PptxGen:
         self.k += 1
         return "%s%d" % (s, self.k)
 
-    def sp(self, parent, ph=None, y=None, fill=None, idx=None):
+    @staticmethod
+    def _coord(v):
+        return str(v) if isinstance(v, int) else v
+
+    def sp(self, parent, ph=None, y=None, fill=None, idx=None, x=100):
         sp = ET.SubElement(parent, PML + "sp")
         nv = ET.SubElement(sp, PML + "nvSpPr")
         ET.SubElement(nv, PML + "cNvPr").set("id", "2")
@@ -2262,10 +2270,10 @@ class PptxGen:
                 e.set("idx", idx)
         sppr = ET.SubElement(sp, PML + "spPr")
         if y is not None:
-            x = ET.SubElement(sppr, A + "xfrm")
-            off = ET.SubElement(x, A + "off")
-            off.set("x", "100")
-            off.set("y", str(y) if isinstance(y, int) else y)
+            xf = ET.SubElement(sppr, A + "xfrm")
+            off = ET.SubElement(xf, A + "off")
+            off.set("x", self._coord(x))
+            off.set("y", self._coord(y))
         tb = ET.SubElement(sp, PML + "txBody")
         ET.SubElement(tb, A + "bodyPr")
         fill(tb)
@@ -2288,7 +2296,9 @@ class PptxGen:
         ref.sep("para")
         p = ET.SubElement(tb, A + "p")
         kinds = ctx.params.get("par_kinds") or self.PAR_KINDS
-        kind = kinds[ctx.choice("par_kind", len(kinds))]
+        self.n_focus = getattr(self, "n_focus", 0) + 1
+        pinned = ctx.params.get("first_par_kind") if self.n_focus == 1 else None      # part split
+        kind = pinned or kinds[ctx.choice("par_kind", len(kinds))]
 
         def run(text):
             r = ET.SubElement(p, A + "r")
@@ -2325,39 +2335,46 @@ class PptxGen:
 
     SHAPES = ["title", "body-2p", "textbox", "footer", "sldnum", "date", "group", "table", "ac-shape", "focus"]
 
-    def shape(self, tree, kind, y):
+    # inheritance class of a shape WITHOUT a:xfrm: its place comes from the slide layout (outside the
+    # model); only shapes of the same class - which inherit the same place - are comparable
+    NOPOS_CLASS = {"title": "ph:title", "body-2p": "ph:body:1", "footer": "ph:ftr:11", "sldnum": "ph:sldNum:12",
+                   "date": "ph:dt:10"}
+
+    def shape(self, tree, kind, y, x=100):
+        """y None: the shape carries no a:xfrm / p:xfrm at all"""
         ctx, ref = self.ctx, self.ref
         start = len(ref.items)
         ref.sep("shape")
         if kind == "title":
-            self.sp(tree, "title", y, lambda tb: self.par(tb, extra=("title",)))
+            self.sp(tree, "title", y, lambda tb: self.par(tb, extra=("title",)), x=x)
         elif kind == "body-2p":
-            self.sp(tree, "body", y, lambda tb: (self.par(tb), self.par(tb)), idx="1")
+            self.sp(tree, "body", y, lambda tb: (self.par(tb), self.par(tb)), idx="1", x=x)
         elif kind == "textbox":
-            self.sp(tree, None, y, lambda tb: self.par(tb))
+            self.sp(tree, None, y, lambda tb: self.par(tb), x=x)
         elif kind == "focus":
-            self.sp(tree, None, y, lambda tb: self.focus_par(tb))
+            self.sp(tree, None, y, lambda tb: self.focus_par(tb), x=x)
         elif kind == "footer":
             # slide footer placeholder: headers/footers are not part of the default text
-            self.sp(tree, "ftr", y, lambda tb: self.par(tb, "excl", extra=("footer",)), idx="11")
+            self.sp(tree, "ftr", y, lambda tb: self.par(tb, "excl", extra=("footer",)), idx="11", x=x)
         elif kind == "sldnum":
-            self.sp(tree, "sldNum", y, lambda tb: self.par(tb, "free", extra=("slide-number",)), idx="12")
+            self.sp(tree, "sldNum", y, lambda tb: self.par(tb, "free", extra=("slide-number",)), idx="12", x=x)
         elif kind == "date":
-            self.sp(tree, "dt", y, lambda tb: self.par(tb, "free", extra=("date",)), idx="10")
+            self.sp(tree, "dt", y, lambda tb: self.par(tb, "free", extra=("date",)), idx="10", x=x)
         elif kind == "group":
             grp = ET.SubElement(tree, PML + "grpSp")
             ET.SubElement(grp, PML + "nvGrpSpPr")
             gp = ET.SubElement(grp, PML + "grpSpPr")
             ref.push("group")
-            self.sp(grp, None, y, lambda tb: self.par(tb))
+            self.sp(grp, None, y, lambda tb: self.par(tb), x=x)
             ref.pop()
         elif kind == "table":
             fr = ET.SubElement(tree, PML + "graphicFrame")
             ET.SubElement(fr, PML + "nvGraphicFramePr")
-            xf = ET.SubElement(fr, PML + "xfrm")
-            off = ET.SubElement(xf, A + "off")
-            off.set("x", "100")
-            off.set("y", str(y) if isinstance(y, int) else y)
+            if y is not None:
+                xf = ET.SubElement(fr, PML + "xfrm")
+                off = ET.SubElement(xf, A + "off")
+                off.set("x", self._coord(x))
+                off.set("y", self._coord(y))
             gd = ET.SubElement(ET.SubElement(fr, A + "graphic"), A + "graphicData")
             gd.set("uri", "http://schemas.openxmlformats.org/drawingml/2006/table")
             tbl = ET.SubElement(gd, A + "tbl")
@@ -2378,11 +2395,28 @@ class PptxGen:
             ac = ET.SubElement(tree, MC + "AlternateContent")
             ch = ET.SubElement(ac, MC + "Choice")
             ch.set("Requires", "a14")
-            self.sp(ch, None, y, lambda tb: self.par(tb, extra=("ac-choice",)))
+            self.sp(ch, None, y, lambda tb: self.par(tb, extra=("ac-choice",)), x=x)
             fb = ET.SubElement(ac, MC + "Fallback")
-            self.sp(fb, None, y, lambda tb: self.par(tb, "excl", extra=("ac-fallback",)))
+            self.sp(fb, None, y, lambda tb: self.par(tb, "excl", extra=("ac-fallback",)), x=x)
         ref.sep("shape")
         self.shapes.append((y, start, len(ref.items)))
+
+
+def _reading_order(n, before, seen_at):
+    """a linear extension of the partial order `before` (before(i, j): the source DEFINES that shape i is
+    read before shape j) over the shapes 0..n-1.  Pairs the source does not order are placed the way the
+    output shows them (seen_at[i]: offset of the shape's first located body token, None if it has none), so
+    nothing is demanded for them; if the output contradicts a defined pair, the returned order has the pair
+    in the defined order and the order check of the oracle reports it.  Shapes without a located token
+    cannot be compared and go last."""
+    todo = [i for i in range(n) if seen_at[i] is not None]
+    out = []
+    while todo:
+        minimal = [i for i in todo if not any(before(j, i) for j in todo if j != i)]
+        pick = min(minimal or todo, key=lambda i: (seen_at[i], i))
+        out.append(pick)
+        todo.remove(pick)
+    return out + [i for i in range(n) if seen_at[i] is None]
 
 
 def k6_slides(ctx):
@@ -2472,17 +2506,30 @@ def k6_slides(ctx):
     ET.SubElement(tree, PML + "nvGrpSpPr")
     ET.SubElement(tree, PML + "grpSpPr")
     n = 1 + ctx.choice("n_shapes", ctx.params.get("N", 2))
-    ys = []
+    # Shape positions.  Every shape either carries an offset (a:off y in 0..3, x in 0..1, x 1000, both symbolic
+    # and NOT assumed distinct: the extractor's own comparisons split equal / smaller / larger) or no xfrm
+    # at all.  Token numbers rise or fall with the document order of the shapes (a flag), so an order taken
+    # from the text of the items is distinguishable from the document order either way.
+    nopos = ctx.params.get("nopos", True)
+    desc = ctx.params.get("tok_desc")
+    if desc is None:
+        desc = ctx.flag("tokens_descending") if n > 1 else False
+    pos = []
     kinds = []
     for i in range(n):
         first = ctx.params.get("first")
         kind = first if (first and i == 0) else g.SHAPES[ctx.choice(g.nm("shape"), len(g.SHAPES))]
-        y = ctx.fresh_int("y%d" % i, 0, 3)
-        for other in ys:
-            ctx.assume(y != other)          # equal offsets: reading order undefined
-        ys.append(y)
         kinds.append(kind)
-        g.shape(tree, kind, y * 1000 if isinstance(y, int) else S.SymInt(y.z * 1000))
+        ref.n = 10 * ((n - 1 - i) if desc else i)
+        if nopos and ctx.flag("no_xfrm%d" % i):
+            pos.append(None)
+            g.shape(tree, kind, None)
+            continue
+        y = ctx.fresh_int("y%d" % i, 0, 3)
+        x = ctx.fresh_int("x%d" % i, 0, 1)
+        pos.append((y, x))
+        g.shape(tree, kind, *[v * 1000 if isinstance(v, int) else S.SymInt(v.z * 1000) for v in (y, x)])
+    ref.n = 10 * n
     comments = None
     if not ctx.params.get("no_comment") and ctx.flag("has_comment"):
         comments = ET.Element(PML + "cmLst")
@@ -2499,16 +2546,66 @@ def k6_slides(ctx):
         ctx.fail("extractor-raised", exc=type(e).__name__, msg=str(e)[:100], **info)
         return
     out = str(out)
-    # reading order = documented top-to-bottom order of the shapes: sort the reference by the (now decided) offsets
-    yv = [ctx.conc(y, 0, 3) for y in ys]
-    info["y"] = yv
+    # Reading order (reference).  Documented: shapes are read top-to-bottom, then left-to-right, i.e. by
+    # (y, x) of a:off.  Shapes with EQUAL offsets are not ordered by position; the only order the source
+    # gives them is the order of the slide part (the z-order), and "same relative order as in the source"
+    # demands that one - whatever the kind or the text of the shapes.  A shape without xfrm has no position
+    # in the slide part (layout inheritance is outside the model): it is comparable only with shapes of the
+    # same inheritance class (plain shapes among themselves, placeholders of the same type and idx), again
+    # by the order of the slide part; nothing is demanded between it and any other shape.
+    rel = {}
+    reverse_ties = ctx.perturb == "ties_in_reverse"
+
+    def tie(i, j):
+        return (i > j) if reverse_ties else (i < j)
+
+    tied = set()
+    for i in range(n):
+        for j in range(n):
+            if i == j:
+                continue
+            a_, b_ = pos[i], pos[j]
+            if a_ is None and b_ is None:
+                same = PptxGen.NOPOS_CLASS.get(kinds[i], "plain") == PptxGen.NOPOS_CLASS.get(kinds[j], "plain")
+                rel[i, j] = same and tie(i, j)
+                if same:
+                    tied.add((i, j))
+            elif a_ is None or b_ is None:
+                rel[i, j] = False
+            elif a_[0] < b_[0]:
+                rel[i, j] = True
+            elif a_[0] == b_[0] and a_[1] < b_[1]:
+                rel[i, j] = True
+            elif a_[0] == b_[0] and a_[1] == b_[1]:
+                rel[i, j] = tie(i, j)
+                tied.add((i, j))
+            else:
+                rel[i, j] = False
+    seen_at = []
+    for (_, a_, b_) in g.shapes:
+        at = [out.find(it[1]) for it in ref.items[a_:b_] if it[0] == "tok" and it[2] == "body"]
+        at = [v for v in at if v >= 0]
+        seen_at.append(at[0] if at else None)
+    order = _reading_order(n, lambda i, j: rel[i, j], seen_at)
+    info["pos"] = [None if q is None else ([int(q[0]), int(q[1])] if ctx.concrete else "sym") for q in pos]
+    info["tied"] = sorted(list(q) for q in tied if q[0] < q[1])
     info["out"] = out[:300]
-    segs = sorted(zip(yv, range(len(g.shapes))))
     tail = ref.items[g.shapes[-1][2]:] if g.shapes else []
     head = ref.items[:g.shapes[0][1]] if g.shapes else []
     items = list(head)
-    for _, si in segs:
-        items += ref.items[g.shapes[si][1]:g.shapes[si][2]]
+    for si in order:
+        seg = ref.items[g.shapes[si][1]:g.shapes[si][2]]
+        extra = ()
+        if any((si, j) in tied for j in range(n)):
+            extra += ("tied-position",)
+        # element kinds of tied shapes (for the failure class): a graphic frame followed by a tied p:sp
+        if any(kinds[si] == "table" and kinds[j] != "table" and (si, j) in tied for j in range(si + 1, n)):
+            extra += ("tied-frame-before-sp",)
+        if any(kinds[j] == "table" and kinds[si] != "table" and (j, si) in tied for j in range(si)):
+            extra += ("tied-sp-after-frame",)
+        if extra:
+            seg = [("tok", it[1], it[2], tuple(it[3]) + extra) if it[0] == "tok" else it for it in seg]
+        items += seg
     ref.items = items + list(tail)
     if ctx.concrete:
         import sharepoint2text
@@ -2529,10 +2626,16 @@ def _k6_parts(tier):
     lens = (1, 2, 3) if tier == "quick" else (1, 2, 3, 10)
     plain = [k for k in PptxGen.PAR_KINDS if k != "sym"]
     for first in PptxGen.SHAPES:
-        parts.append({"fmt": "pptx", "N": 2, "first": first, "par_kinds": plain})
+        if first == "focus":
+            # the largest part: split by the kind of the first focus paragraph
+            parts += [{"fmt": "pptx", "N": 2, "first": first, "par_kinds": plain, "first_par_kind": k} for k in plain]
+        else:
+            parts.append({"fmt": "pptx", "N": 2, "first": first, "par_kinds": plain})
     if tier != "quick":
-        for first in ("title", "table", "ac-shape"):
-            parts.append({"fmt": "pptx", "N": 3, "first": first, "par_kinds": ["r"], "no_comment": True})
+        # three shapes (tie groups of three, a tied pair around / beside a third shape)
+        for first in PptxGen.SHAPES:
+            if first != "focus":
+                parts.append({"fmt": "pptx", "N": 3, "first": first, "par_kinds": ["r"], "no_comment": True})
     for ln in lens:
         parts.append({"fmt": "pptx", "N": 1 if tier == "quick" else 2, "first": "focus", "par_kinds": ["sym"], "sym_lens": (ln,)})
     return parts
@@ -2649,24 +2752,33 @@ KERNELS = [
            timeout={"quick": 100, "thorough": 1100}),
     Kernel("K6", "presentation text plumbing: PPT text blocks with symbolic text type through _clean_text / "
                  "_make_text_block / _build_slides_from_text_blocks / get_full_text; PPTX slide walk with symbolic shape "
-                 "offsets and symbolic paragraph-child name",
+                 "offsets (ties included), shapes without offsets and symbolic paragraph-child name",
            k6_slides, targets=_k6_targets, parts=_k6_parts,
            perturb=[("notes_are_body", {"fmt": "ppt", "B": 2, "slides": 1}),
-                    ("footer_is_body", {"fmt": "pptx", "N": 1, "first": "footer", "sym_lens": (1,), "par_kinds": ["r"]})],
+                    ("footer_is_body", {"fmt": "pptx", "N": 1, "first": "footer", "sym_lens": (1,), "par_kinds": ["r"]}),
+                    ("ties_in_reverse", {"fmt": "pptx", "N": 2, "first": "textbox", "sym_lens": (1,), "par_kinds": ["r"],
+                                         "no_comment": True})],
            symbolic=["ppt: TextHeaderAtom text type of every block (0..8): the extractor's own set-membership tests "
                      "split it, the reference classifies it from [MS-PPT] TextTypeEnum",
-                     "pptx: a:off y of every shape (distinct, 0..3 x 1000) through int() and the position sort",
+                     "pptx: a:off y (0..3 x 1000) and x (0..1 x 1000) of every shape, NOT assumed distinct, through int() "
+                     "and the extractor's two position sorts (tuple ==/< decide smaller / equal / larger per pair)",
                      "pptx: local name of one child of a:p (length 1,2,3; thorough +10)"],
            choices=["ppt: 1-2 slides, 1-B blocks, raw block text with \\r / \\x0b / \\t / NUL, block without TextHeaderAtom",
                     "pptx: 1-N shapes from title, body with two paragraphs, text box, footer / slide number / date "
                     "placeholders, group, table 2x2, AlternateContent shape with fallback, focus paragraph (run, br, "
-                    "fld, empty run); slide comment"],
+                    "fld, empty run); slide comment",
+                    "pptx: per shape offset present / no xfrm at all (empty p:spPr, frame without p:xfrm)",
+                    "pptx: token numbers rising or falling with the order of the shapes in the slide part (an order "
+                    "derived from item text or kind instead of the slide part shows either way)"],
            stubs=["pptx: _PptxContext stand-in handing over the generated slide / comment trees (replay: a real .pptx "
                   "through read_pptx)"],
            assumptions=["ppt: documented order title, body, other per slide; notes excluded",
-                        "pptx: reading order = top-to-bottom shape offsets (documented); shapes have distinct offsets"],
+                        "pptx: reading order = shape offsets top-to-bottom, then left-to-right (documented); shapes with "
+                        "equal offsets keep the order of the slide part; a shape without xfrm is ordered only against "
+                        "shapes of the same inheritance class (plain shapes / placeholders of equal type and idx), by "
+                        "the order of the slide part - nothing is demanded between it and other shapes"],
            outside=["PPT record walk (_iter_records / SlideListWithText) on bytes, pptx slide order / relationships / "
-                    "zip plumbing, shapes without offsets (layout inheritance)"],
+                    "zip plumbing, the place a shape without offsets inherits from its layout, child offsets of groups"],
            timeout={"quick": 100, "thorough": 1100}),
     # "content of removed markup never appears in the full text" is the subject of C17; its kernel
     # (same harness function) is run here as well so that C02 sees breaks of that clause
